@@ -43,6 +43,9 @@ var isoDerive = []string{
 	"(json:load-string (json:dump-string shared-list))", "(string:split \"c,a,b\" \",\")", "(keys shared-map)",
 	"(slice 'bytes shared-list 0 2)", "(to-bytes \"cab\")", "(make-sequence 0 3)", "(list shared-list (shared-lit))",
 	"(quasiquote (3 (unquote-splicing shared-list) 1))", "(car (list shared-list))",
+	"(quasiquote ((unquote-splicing shared-list)))", "(quasiquote ((unquote-splicing (shared-lit))))",
+	"(quasiquote ((unquote-splicing (cdr shared-list))))", "(car (quasiquote (((unquote-splicing shared-list)))))",
+	"(quasiquote (unquote shared-list))", "(reverse 'list (slice 'list shared-list 0 1))", "(concat 'list (cdr shared-list))",
 }
 
 var isoMutate = []string{
